@@ -915,21 +915,27 @@ def main(ctx):
     ctx.rule = (
         'life: E2 BFS over histories [choose body, then <= D operations of '
         'next / next(3) / pause / resume / stop / reset / play / inner.next '
-        '/ one NRT scheduler step] on a real Routine whose body interprets a '
-        'data script (<= 3 actions of yield 0.5 / yield "x" / echo / return '
-        '/ raise / YieldAndReset / AlwaysYield / self.stop|pause|reset|next '
-        '/ inner.next with 3-7 inner bodies; bodies scripted per run; plain '
-        'function bodies); after every call (also inside bodies) result, '
-        'Routine.state of every routine, main.current_tt and logical time '
-        'are compared with mc/oracles/routine_ref.py. cond: E2 BFS over '
-        'play / test=True|False / signal / unhang / value=v / value=w / '
-        'scheduler step with 1-3 routines waiting on Condition / FlowVar; '
-        'queued wake-ups per routine and parked lists must equal the '
-        'reference after every step. States deduplicated on (reference '
-        'state, Routine attributes, generator position, scheduler queue '
-        'relative to now). Non-trivial = the routine changed life-cycle '
-        'state at least twice (life), a parked routine was released (cond), '
-        '>= 1 preemption or a same-instant race (rt).')
+        '(thorough: inner.stop, inner.reset) / one NRT scheduler step] on a '
+        'real Routine whose body interprets a data script (<= 3 actions of '
+        'yield 0.5 / yield "x" / echo / return / raise / YieldAndReset / '
+        'AlwaysYield / self.stop|pause|reset|next / inner.next with 3-8 '
+        'inner bodies, some calling back outer.stop|next|pause|reset; bodies '
+        'scripted per run; plain function bodies); after every call (also '
+        'the failing ones and those made inside bodies) result or exception '
+        'class, Routine.state of every routine, main.current_tt and the '
+        'caller\'s logical time are compared with '
+        'mc/oracles/routine_ref.py. cond: E2 BFS over play / test=True|False '
+        '/ signal / unhang / value=v / value=w / stop / reset / scheduler '
+        'step with 1-3 routines waiting on Condition / FlowVar (also '
+        'signalling from inside routines): every wake-up result equals the '
+        'reference, a wake-up that nobody owes must not run a body, an owed '
+        'wake-up must be queued. rt (thorough): 31 programs with two waiters '
+        'on different clocks and a signalling thread / routine on a third, '
+        'every schedule with <= 2 preemptions. States deduplicated on '
+        '(reference state, Routine attributes, generator position, '
+        'scheduler queue relative to now). Non-trivial = the routine changed '
+        'life-cycle state at least twice (life), a parked routine was '
+        'released (cond), >= 1 preemption or a same-instant race (rt).')
     ctx.assumptions += [
         'reference state machine mc/oracles/routine_ref.py written from the '
         'docstrings of sc3/base/stream.py, docs/guides/routine.rst and the '
@@ -938,12 +944,15 @@ def main(ctx):
         'don\'t-cares: play() on a paused routine (either stays paused or '
         'resumes), exception class of a re-entrant next() (an exception is '
         'required), which queued task the NRT scheduler pops next (the '
-        'implementation\'s queue is followed), number of queue entries in '
-        'the life system (pause/resume duplicates are C10\'s subject)',
+        'implementation\'s queue is followed), extra queue entries that '
+        'cannot run a body (routine Done / Paused), the logical time at '
+        'which a released waiter resumes',
         'one scheduler step = the library\'s ClockScheduler.run() with its '
         'queue wrapped so that it reports empty after one pop; '
         '__awake__ results are observed by an instance-level wrapper that '
-        'delegates to Routine.__awake__']
+        'delegates to Routine.__awake__',
+        'rt: interleavings at synchronisation operations only '
+        '(mc/vthreading.py), no lateness deviations']
     quick = ctx.tier == 'quick'
     ctx.extra['life_bodies_quick_set'] = len(life_bodies('quick'))
     if quick:
@@ -953,17 +962,20 @@ def main(ctx):
         ctx.extra['life_bodies_thorough_set'] = len(life_bodies('thorough'))
         histbfs.run(ctx, MODNAME, 'life', {'set': 'quick'}, depth=1 + 10,
                     batch=24, label='life: quick body set + <= 10 operations')
-        histbfs.run(ctx, MODNAME, 'life', {'set': 'thorough'}, depth=1 + 6,
+        histbfs.run(ctx, MODNAME, 'life', {'set': 'thorough'}, depth=1 + 5,
                     batch=24,
-                    label='life: thorough body set + <= 6 operations')
+                    label='life: thorough body set + <= 5 operations')
     for cfg in sorted(COND_CONFIGS):
         histbfs.run(ctx, MODNAME, 'cond', {'config': cfg},
                     depth=12 if quick else 20, batch=24,
                     label=f'cond:{cfg}')
     if not quick:
         progs = rt_programs()
-        jobs = [{'name': n, 'how': h, 'prog': p, 'max_pre': 2, 'max_late': 0}
+        # the program with two signalling threads waking at the same instant
+        # has ~30 times more schedules: one preemption there
+        jobs = [{'name': n, 'how': h, 'prog': p,
+                 'max_pre': 1 if n == 'sig-two-threads' else 2, 'max_late': 0}
                 for n, h, p in progs]
         progenum.run(ctx, MODNAME, 'work_rt', jobs, mode='rt',
-                     bound='rt: <= 2 preemptions')
+                     bound='rt: <= 2 preemptions (two signalling threads: <= 1)')
         ctx.extra['rt_programs'] = len(progs)
